@@ -151,12 +151,16 @@ def _propagate(fn: ast.FunctionDef, prog: Optional[Program] = None) -> None:
     mods = mod_summaries(prog) if prog is not None else None
     skip: Set[str] = set()
     for _ in range(40):
+        nodes = list(ast.walk(fn))
+        if not any(isinstance(n, ast.Assign) and len(n.targets) == 1 and isinstance(n.targets[0], ast.Name) and n.targets[0].id not in skip
+                   for n in nodes):
+            return
         counts = _stores(fn)
         params = {a.arg for a in fn.args.posonlyargs + fn.args.args + fn.args.kwonlyargs}
         attr_stores = set()
         mutation_sites = []
         self_calls: List[ast.Call] = []
-        for x in ast.walk(fn):
+        for x in nodes:
             if isinstance(x, ast.Attribute) and isinstance(x.ctx, (ast.Store, ast.Del)):
                 attr_stores.add(x.attr)
                 mutation_sites.append((x.attr, x))
@@ -171,7 +175,7 @@ def _propagate(fn: ast.FunctionDef, prog: Optional[Program] = None) -> None:
                     and x.func.value.id == "self":
                 self_calls.append(x)
         cand: Optional[ast.Assign] = None
-        for n in ast.walk(fn):
+        for n in nodes:
             if isinstance(n, ast.Assign) and len(n.targets) == 1 and isinstance(n.targets[0], ast.Name):
                 name = n.targets[0].id
                 if counts.get(name, 0) != 1 or name in params or name in skip or not _is_pure(n.value):
@@ -195,7 +199,7 @@ def _propagate(fn: ast.FunctionDef, prog: Optional[Program] = None) -> None:
                     # allowed only if no change of these attributes lies between the definition and its last use (in evaluation
                     # order), and no loop that does not contain the definition contains both a use and a change
                     order = _eval_order(fn)
-                    uses_ = [x for x in ast.walk(fn) if isinstance(x, ast.Name) and x.id == name and isinstance(x.ctx, ast.Load)]
+                    uses_ = [x for x in nodes if isinstance(x, ast.Name) and x.id == name and isinstance(x.ctx, ast.Load)]
                     if not uses_:
                         continue
                     d0 = order.get(id(n.targets[0]), 0)
@@ -203,7 +207,7 @@ def _propagate(fn: ast.FunctionDef, prog: Optional[Program] = None) -> None:
                     if any(d0 < order.get(id(m[1]), 0) <= last for m in relevant):
                         continue
                     shared_loop = False
-                    for lp in ast.walk(fn):
+                    for lp in nodes:
                         if isinstance(lp, (ast.For, ast.While)):
                             inside = {id(x) for x in ast.walk(lp)}
                             if id(n) not in inside and any(id(u) in inside for u in uses_) and any(id(m[1]) in inside for m in relevant):
@@ -216,7 +220,7 @@ def _propagate(fn: ast.FunctionDef, prog: Optional[Program] = None) -> None:
         if cand is None:
             return
         name = cand.targets[0].id
-        uses = [x for x in ast.walk(fn) if isinstance(x, ast.Name) and x.id == name and isinstance(x.ctx, ast.Load)]
+        uses = [x for x in nodes if isinstance(x, ast.Name) and x.id == name and isinstance(x.ctx, ast.Load)]
         if not uses:
             # unused local: leave it (removing is not our business), but stop considering it
             skip.add(name)
@@ -227,7 +231,6 @@ def _propagate(fn: ast.FunctionDef, prog: Optional[Program] = None) -> None:
             continue
         _Subst({name: cand.value}).visit(fn)
         _remove_stmt(fn, cand)
-        ast.fix_missing_locations(fn)
 
 
 def _eval_order(fn: ast.AST) -> Dict[int, int]:
